@@ -265,6 +265,137 @@ def boundary(rng, k=None):
     return cases[k % len(cases)]()
 
 
+# ---- "built by ordinary evaluation" stream -----------------------------------------------------------
+# The property speaks about the expression the user wrote.  When it is built with SymPy's ordinary evaluation, SymPy consults
+# the assumptions symplyphysics' Quantity class publishes about itself (quantities.py: _eval_is_positive, _eval_Abs, ...) and
+# may rewrite Max(q, 0) -> q before the collector sees anything.  Here an ABSTRACT tree is built twice -- unevaluated in a
+# fixed order (what the model reads) and by ordinary evaluation (what Quantity(...) receives) -- and the two must agree on
+# the value and, unless that value is of any dimension, on the dimension.
+
+EV_VALUES = [0, 1, 3, -3, Rational(1, 2), Rational(-7, 2), 5, -1, oo, -oo, oo, 10**6]
+
+
+def ev_tree(rng, vec, depth):
+    from symplyphysics import Quantity  # pylint: disable=import-outside-toplevel
+    if depth <= 0 or rng.random() < 0.3:
+        r = rng.random()
+        if r < 0.15:
+            return ("num", S.Zero)
+        if r < 0.25 and all(x == 0 for x in vec):
+            return ("num", sympy.sympify(rng.choice([1, -2, 3, Rational(1, 2)])))
+        v = rng.choice(EV_VALUES)
+        # every leaf is a fresh Quantity object (a fresh SymPy symbol): no two leaves can cancel symbolically
+        return ("q", Quantity(v * unit_expr_from_vec(vec, 0, rng)) if v not in (oo, -oo)
+            else Quantity(v, dimension=dimension_from_vec(vec, Fraction(0), rng)))
+    r = rng.random()
+    if r < 0.25:
+        return ("add", [ev_tree(rng, vec, depth - 1) for _ in range(rng.choice([2, 3]))])
+    if r < 0.40:
+        v1, _a = rand_dimvec(rng)
+        v1 = tuple(Fraction(int(x)) for x in v1)
+        return ("mul", [ev_tree(rng, v1, depth - 1), ev_tree(rng, tuple(x - y for x, y in zip(vec, v1)), depth - 1)])
+    if r < 0.50 and all(x.denominator == 1 and x % 2 == 0 for x in vec):
+        return ("pow", ev_tree(rng, vscale(vec, Fraction(1, 2)), depth - 1), 2)
+    if r < 0.60:
+        return ("abs", ev_tree(rng, vec, depth - 1))
+    return (rng.choice(["min", "max"]), [ev_tree(rng, vec, depth - 1) for _ in range(rng.choice([2, 2, 3]))])
+
+
+def ev_build(t, evaluate):
+    k = t[0]
+    if k in ("num", "q"):
+        return t[1]
+    if k == "pow":
+        return Pow(ev_build(t[1], evaluate), t[2], evaluate=evaluate)
+    if k == "abs":
+        return Abs(ev_build(t[1], evaluate), evaluate=evaluate)
+    args = [ev_build(a, evaluate) for a in t[1]]
+    cls = {"add": Add, "mul": Mul, "min": Min, "max": Max}[k]
+    return cls(*args, evaluate=evaluate) if evaluate is False else cls(*args)
+
+
+def ev_value(t):
+    """value of the abstract tree by plain SymPy arithmetic on scale factors; None when zoo / nan appears anywhere (SymPy's Min/Max
+    refuse nan, and products 0*oo depend on evaluation order) -- such trees are not generated"""
+    k = t[0]
+    if k == "num":
+        return t[1]
+    if k == "q":
+        return sympy.sympify(t[1].scale_factor)
+    if k == "pow":
+        v = ev_value(t[1])
+        r = None if v is None else v**t[2]
+    elif k == "abs":
+        v = ev_value(t[1])
+        r = None if v is None else Abs(v)
+    else:
+        vs = [ev_value(a) for a in t[1]]
+        if any(v is None for v in vs):
+            return None
+        r = {"add": Add, "mul": Mul, "min": Min, "max": Max}[k](*vs)
+    if r is None or r in (nan, zoo) or not (r.is_Rational or r in (oo, -oo)):
+        return None
+    return r
+
+
+def evalbuild_cases(ctx, n):
+    from symplyphysics import Quantity  # pylint: disable=import-outside-toplevel
+    from symplyphysics.core.dimensions import collect_quantity_factor_and_dimension as cq  # pylint: disable=import-outside-toplevel
+    rng = ctx.rng
+    m = units.meter
+    fixed = [
+        ("max", [("q", Quantity(oo, dimension=units.length)), ("num", S.Zero)]),
+        ("min", [("q", Quantity(oo, dimension=units.length)), ("num", S.Zero)]),
+        ("max", [("num", S.Zero), ("q", Quantity(oo * m)), ("q", Quantity(-5 * m))]),
+        ("min", [("q", Quantity(-oo, dimension=units.time)), ("num", S.Zero)]),
+        ("max", [("q", Quantity(-oo, dimension=units.time)), ("q", Quantity(0))]),
+        ("add", [("q", Quantity(3 * m)), ("max", [("q", Quantity(oo * m)), ("num", S.Zero)])]),
+        ("abs", ("q", Quantity(-oo, dimension=units.mass))),
+        ("max", [("q", Quantity(3 * m)), ("num", S.Zero)]),
+        ("min", [("q", Quantity(-3 * m)), ("num", S.Zero)]),
+        ("max", [("q", Quantity(0 * m)), ("num", S.Zero)]),
+        ("pow", ("abs", ("q", Quantity(-2 * m))), 2),
+        ("abs", ("mul", [("q", Quantity(-2 * m)), ("q", Quantity(3 * units.second))])),
+        ("min", [("abs", ("q", Quantity(-2 * m))), ("q", Quantity(1 * m)), ("num", S.Zero)]),
+    ]
+    out, skipped = [], 0
+    trees = list(fixed)
+    for _ in range(n):
+        vec, _a = rand_dimvec(rng)
+        vec = tuple(Fraction(int(x)) for x in vec)
+        trees.append(ev_tree(rng, vec, rng.choice([1, 2, 2, 3])))
+    for t in trees:
+        if ev_value(t) is None:
+            skipped += 1
+            continue
+        try:
+            un = ev_build(t, False)
+            lit = qx.qexpr_lit(un)
+            obs = qx.cres_of_impl(cq, un)
+            olit = qx.cres_lit(obs)
+        except (qx.Unsupported, Exception):  # pylint: disable=broad-except
+            skipped += 1
+            continue
+
+        def ctor(t=t):
+            q = Quantity(ev_build(t, True))
+            return q.scale_factor, q.dimension
+        try:
+            obs2 = qx.cres_of_impl(ctor)
+            o2lit = qx.cres_lit(obs2)
+        except qx.Unsupported:
+            skipped += 1
+            continue
+        try:
+            shown = str(ev_build(t, True))
+        except Exception as e:  # pylint: disable=broad-except
+            shown = f"<building raised {type(e).__name__}: {e}>"
+        out.append({"lit": f"({lit}, {olit}, {o2lit})", "expr": un, "obs": obs, "obs2": obs2, "stream": "evalbuild",
+            "desc": f"{un} with { {str(q): str(q.scale_factor) for q in un.atoms(SymQuantity)} }, built by evaluation as {shown}",
+            "value": str(ev_value(t))})
+    return out, skipped
+
+
 # ---- specification predicate, written from the property text (used only after a disagreement) ------
 
 def spec(expr):
@@ -439,6 +570,25 @@ def run(ctx):
             ctx.violation(key, f"quantity construction contradicts the property on {c['desc'][:120]}: {why}", replay, True)
         else:
             ctx.violation(key, f"model and implementation disagree on {c['desc'][:120]}", replay, False)
+    ev, ev_skipped = evalbuild_cases(ctx, ctx.pick(250, 4000))
+    bad_ev = coqrun.eval_cases(ctx, "evalbuild", qx.PREAMBLE_COLLECT, [c["lit"] for c in ev],
+        "fun c : qexpr * cres * cres => let '(e, o, o2) := c in cres_eqb (collect e) o && "
+        "match quantity_ctor e None, o2 with Ok (v, d), Ok (w, d2) => val_eqb v w && (is_any v || deqb d d2) "
+        "| Err x, Err y => N.eqb x y | _, _ => false end")
+    for i in bad_ev[:20]:
+        c = ev[i]
+        ok_collect = spec_contradicted(c["expr"], c["obs"])
+        ctx.violation(f"C05:evalbuild:{c['lit'][:300]}",
+            f"Quantity(expr) is not the value of expr when expr is built by ordinary evaluation: {c['desc'][:300]} has value "
+            f"{c['value']}, Quantity gave {c['obs2'][1:]}" if ok_collect is None and c["obs2"][0] == "ok"
+            else f"model and implementation disagree on {c['desc'][:200]}",
+            {"kind": "evalbuild", "expr": c["desc"], "srepr_unevaluated": sympy.srepr(c["expr"])[:2000], "gallina": c["lit"],
+             "value_of_expression": c["value"], "observed": {"collect(unevaluated)": str(c["obs"]), "Quantity(evaluated)": str(c["obs2"])},
+             "theorem_or_tie": "correspondence CollectQ.quantity_ctor (on the tree as written) ~ Quantity(tree built by ordinary evaluation)"},
+            True)
+    hist[("evalbuild", "compared")] = len(ev)
+    hist[("evalbuild", "skipped-nan-zoo-or-irrational")] = ev_skipped
+    cases = cases + ev
     distinct = len({c["lit"] for c in cases if "QMul" in c["lit"] or "QAdd" in c["lit"] or "QPow" in c["lit"] or c["obs"][0] == "err"})
     ctx.evaluated(len(cases), distinct)
     for c in cases[:2] + [c for c in cases if c["stream"] == "malformed"][:2] + [c for c in cases if c["stream"] == "boundary"][:2]:
@@ -454,7 +604,9 @@ def run(ctx):
     ctx.coverage["rule"] = ("seeded expression trees (depth <= 5) over numbers, sympy units, prefixes, Quantity objects, + * ** Abs Min Max "
         "and sin/cos/exp/log, built both with evaluate=False (fixed argument order) and canonically; malformed stream (free symbols, "
         "derivatives, dimensional exponents / function arguments, mixed sums); boundary stream (cancelling prefixes, zero/oo/nan terms, "
-        "prefix x derived unit, rational powers). distinct = distinct Gallina literals; non-trivial = contains a compound node or is refused")
+        "prefix x derived unit, rational powers); evalbuild stream: abstract trees over fresh Quantity leaves (values 0, rationals, +-oo) "
+        "and + * **2 Abs Min Max, built once unevaluated (model input) and once by ordinary SymPy evaluation (Quantity input): value and, "
+        "unless the value is of any dimension, dimension must agree; trees whose value passes through nan/zoo are not generated. distinct = distinct Gallina literals; non-trivial = contains a compound node or is refused")
 
 
 def replay(ctx, rep):
